@@ -45,8 +45,8 @@ MANIFEST_ENTRY = {
             "LZW: the codes of ANY admissible factorisation of the data into phrases (single bytes or dictionary entries, "
             "greedy or not, incl. the not-yet-built entry) carried most-significant-bit first in the widths the decoder "
             "expects (early change) after a clear-table code, with or without end-of-data, decode to the data; readbits is "
-            "proved to take the next w bits at every stream position. Flate stages, LZW streams with clear-table codes in "
-            "the middle, and the payload delimitation are tied by differential runs only.",
+            "proved to take the next w bits at every stream position; any number of such segments, each introduced by a "
+            "clear-table code. Flate stages and the payload delimitation are tied by differential runs only.",
     "note": "Trusted: Coq kernel, translator (paeth, name tables), hand models tied by correspondence, harness encoders. "
             "zlib, base64.a85decode and binascii.unhexlify are modelled/oracles. Fix bcc9a95 (PNG row geometry) was needed.",
     "design_ref": "DESIGN.md section 4, C03",
